@@ -190,6 +190,19 @@ class Check:
         return rc, vals, text
 
     @staticmethod
+    def history_meson(root: str, argv: T.List[str], capture: str) -> T.Dict[str, T.Any]:
+        """A history step. What it leaves on disk (pickles) is compared byte-wise with what the processes under the
+        crash shim write, and those always run with PYTHONHASHSEED=0: a forked child would carry the harness
+        interpreter's hash seed instead, so it is only used when that is 0 too."""
+        if os.environ.get('PYTHONHASHSEED') == '0':
+            return M.meson(argv, capture=capture, env=child_env(), timeout=120)
+        cp = subprocess.run([E.PYTHON, E.meson_py()] + argv, env=child_env(), capture_output=True, text=True, timeout=300,
+                            cwd=root, errors='backslashreplace')
+        with open(capture, 'w') as f:
+            f.write(cp.stdout + cp.stderr)
+        return {'ok': True, 'value': cp.returncode, 'out': cp.stdout + cp.stderr, 'exc': None, 'exc_type': None, 'exc_in_sut': False}
+
+    @staticmethod
     def restore(pre: T.Optional[str], bd: str) -> None:
         shutil.rmtree(bd, ignore_errors=True)
         if pre is not None:
@@ -274,7 +287,7 @@ class Check:
                 P.write_edit(spec, sd, st['edit']['where'])
                 continue
             argv = self.argv_for(st, spec, bd, sd, hi == 0)
-            r = M.meson(argv, capture=os.path.join(root, f'hist-{hi}.log'), env=child_env(), timeout=120)
+            r = self.history_meson(root, argv, os.path.join(root, f'hist-{hi}.log'))
             if not r['ok'] or r['value'] != 0:
                 add(probes, 'history-step-failed')
                 return R.ok(nontrivial=False, probes=probes, faults=faults, summary={'skipped': 'history step failed', 'step': st,
